@@ -87,11 +87,29 @@ WALK_COND_SKIP = ['path in path_to_key and path_to_key[path] != self.root_name',
                   'path in path_to_key and self.root_name != path_to_key[path]']
 
 
+SECOND_LOOP = ("for bin_path in generated:\n    name = path_to_key[bin_path]\n    while name in taken:\n        name += '_'\n"
+               "    taken.add(name)\n    path_to_key[bin_path] = name")
+
+
 def layout_entrypoints_path(fn):
     """the part of get_type_layout that `entrypoints=True` runs through (the name generator of the `else` branch
-    belongs to C12 and may change)"""
+    belongs to C12 and may change).  Two shapes are recognised: the pinned one, and the one after fix ef4d743, whose
+    extra statements only concern paths recorded in `generated` — a list that is appended to in the `else` branch
+    AFTER the `entrypoints is False` assertion, hence empty whenever `entrypoints=True` returns at all."""
     b = strip_docstring(fn.body)
     src = [ast.unparse(s) for s in b]
+    if len(b) == 9:
+        # repaired shape: drop `generated = []`, `taken = set(reserved)` and the renaming loop over `generated`
+        if src[2] != 'generated = []' or src[4] != 'taken = set(reserved)' or src[5] != SECOND_LOOP:
+            return False
+        loop = b[3]
+        if not isinstance(loop, ast.For) or len(loop.body) != 3 or not isinstance(loop.body[2], ast.If):
+            return False
+        tail = [ast.unparse(x) for x in loop.body[2].orelse]
+        if len(tail) != 3 or tail[2] != 'generated.append(bin_path)' or 'generated' in tail[0] + tail[1]:
+            return False
+        b = [b[0], b[1], b[3], b[6], b[7], b[8]]
+        src = [ast.unparse(x) for x in b]
     if len(b) != 6 or src[0] != 'reserved = set()' or src[1] != 'path_to_key = {}' or not isinstance(b[2], ast.For):
         return False
     loop = b[2]
